@@ -272,3 +272,226 @@ func ruleSepList(c *Ctx, r *R) {
 	}
 	r.note("lists", nLists)
 }
+
+func init() {
+	register(&Rule{ID: "SEP-trailing", Props: []string{"C04"}, Min: 2,
+		Doc: "P (path search with the current token as state, positive and negative knowledge): in a comma-separated list that is closed by a right parenthesis (the function appends ast.Expression / *ast.Identifier elements in a loop and calls expect(RIGHT_PARENTHESIS): Arguments, FormalParameterList), a comma that has been consumed is followed by another element: no path leads from the comma edge to the closing expect without passing an element append or an error report. ES5 11.2 / 13 have no trailing comma there - `f(a,)` and `function f(a,){}` are syntax errors (array and object literals, where 11.1.4 / 11.1.5 allow it, close with other tokens and are not examined)",
+		Run: ruleSepTrailing})
+}
+
+func ruleSepTrailing(c *Ctx, r *R) {
+	tokPkg := c.Pkg("token")
+	if tokPkg == nil {
+		r.undecided("token", "-", "UNRESOLVED package token")
+		return
+	}
+	tokVal := func(name string) int64 {
+		if k, ok := tokPkg.Types.Scope().Lookup(name).(*types.Const); ok {
+			v, _ := constant.Int64Val(k.Val())
+			return v
+		}
+		return -1
+	}
+	comma, closer := tokVal("COMMA"), tokVal("RIGHT_PARENTHESIS")
+	if comma < 0 || closer < 0 {
+		r.undecided("tokens", "-", "UNRESOLVED token.COMMA / token.RIGHT_PARENTHESIS")
+		return
+	}
+	isListElem := func(t types.Type) bool {
+		sl, ok := t.Underlying().(*types.Slice)
+		if !ok {
+			return false
+		}
+		e := sl.Elem()
+		if typeIs(e, ottoPath+"/ast", "Expression") {
+			return true
+		}
+		if p, ok := e.(*types.Pointer); ok && typeIs(p.Elem(), ottoPath+"/ast", "Identifier") {
+			return true
+		}
+		return false
+	}
+	tokenCmp := func(b *ssa.BasicBlock) (k int64, op token.Token, loadIdx int, ok bool) {
+		iff, isIf := b.Instrs[len(b.Instrs)-1].(*ssa.If)
+		if !isIf {
+			return
+		}
+		bo, isBo := iff.Cond.(*ssa.BinOp)
+		if !isBo || (bo.Op != token.EQL && bo.Op != token.NEQ) {
+			return
+		}
+		a := loadAddr(bo.X)
+		if a == nil || !isFieldAddr(a, "parser", "token") {
+			return
+		}
+		kv, isK := constInt(bo.Y)
+		if !isK {
+			return
+		}
+		loadIdx = -1
+		for i, ins := range b.Instrs {
+			if v, isV := ins.(ssa.Value); isV && v == bo.X {
+				loadIdx = i
+			}
+		}
+		return kv, bo.Op, loadIdx, true
+	}
+	expects := func(ins ssa.Instruction, tok int64) bool {
+		call, ok := ins.(*ssa.Call)
+		if !ok {
+			return false
+		}
+		callee := call.Call.StaticCallee()
+		if callee == nil || callee.Name() != "expect" {
+			return false
+		}
+		for _, a := range call.Call.Args {
+			if k, ok := constInt(a); ok && k == tok && typeIs(a.Type(), ottoPath+"/token", "Token") {
+				return true
+			}
+		}
+		return false
+	}
+	isError := func(ins ssa.Instruction) bool {
+		call, ok := ins.(*ssa.Call)
+		if !ok || call.Call.StaticCallee() == nil {
+			return false
+		}
+		switch call.Call.StaticCallee().Name() {
+		case "error", "errorUnexpected", "errorUnexpectedToken":
+			return true
+		}
+		return false
+	}
+	n := 0
+	for _, fn := range c.AllSrcFuncs("parser") {
+		hasElem, hasCloser := false, false
+		for _, b := range fn.Blocks {
+			for _, ins := range b.Instrs {
+				if call, ok := ins.(*ssa.Call); ok {
+					if bi, ok := call.Call.Value.(*ssa.Builtin); ok && bi.Name() == "append" && isListElem(call.Type()) {
+						hasElem = true
+					}
+				}
+				if expects(ins, closer) {
+					hasCloser = true
+				}
+			}
+		}
+		if !hasElem || !hasCloser {
+			continue
+		}
+		// comma edges
+		type state struct {
+			b          *ssa.BasicBlock
+			known, not int64
+		}
+		ord := 0
+		type startPt struct {
+			b    *ssa.BasicBlock
+			from int
+			at   ssa.Instruction
+		}
+		var starts []startPt
+		for _, cb := range fn.Blocks {
+			if k, op, _, ok := tokenCmp(cb); ok && k == comma {
+				st := cb.Succs[0]
+				if op == token.NEQ {
+					st = cb.Succs[1]
+				}
+				starts = append(starts, startPt{st, 0, cb.Instrs[len(cb.Instrs)-1]})
+			}
+			for i, ins := range cb.Instrs {
+				if expects(ins, comma) {
+					starts = append(starts, startPt{cb, i + 1, ins})
+				}
+			}
+		}
+		for _, sp := range starts {
+			n++
+			ord++
+			key := fmt.Sprintf("%s:comma#%d", ssaFuncName(fn), ord)
+			seen := map[state]bool{}
+			var witness string
+			var walk func(b *ssa.BasicBlock, from int, known, not int64) bool
+			walk = func(b *ssa.BasicBlock, from int, known, not int64) bool {
+				if from == 0 {
+					st := state{b, known, not}
+					if seen[st] {
+						return false
+					}
+					seen[st] = true
+				}
+				callAfter := -1
+				for i := from; i < len(b.Instrs); i++ {
+					ins := b.Instrs[i]
+					if isError(ins) {
+						return false
+					}
+					if expects(ins, closer) {
+						if (known >= 0 && known != closer) || not == closer {
+							return false // the token is known not to be the closer: expect reports the error
+						}
+						witness = c.Pos(instrPos(ins))
+						return true
+					}
+					if call, ok := ins.(*ssa.Call); ok {
+						if bi, isB := call.Call.Value.(*ssa.Builtin); isB {
+							if bi.Name() == "append" && isListElem(call.Type()) {
+								return false // an element follows the comma
+							}
+							continue
+						}
+						if cal := call.Call.StaticCallee(); cal != nil && cal.Name() == "expect" {
+							return false // a token is demanded (an element's first token, or an error is reported)
+						}
+						if cal := call.Call.StaticCallee(); cal != nil && cal.Name() != "next" && cal.Signature.Results().Len() > 0 && cal.Signature.Recv() != nil && typeStr(cal.Signature.Recv().Type()) == "*parser" {
+							return false // something is parsed: an element (or what stands for one)
+						}
+						if cal := call.Call.StaticCallee(); cal != nil && cal.Name() == "next" {
+							known, not = -1, -1
+							callAfter = i
+						}
+					}
+					if _, isRet := ins.(*ssa.Return); isRet {
+						return false
+					}
+				}
+				k, op, loadIdx, isCmp := tokenCmp(b)
+				if isCmp && loadIdx > callAfter {
+					eqSucc, neSucc := b.Succs[0], b.Succs[1]
+					if op == token.NEQ {
+						eqSucc, neSucc = b.Succs[1], b.Succs[0]
+					}
+					switch {
+					case known >= 0 && known == k:
+						return walk(eqSucc, 0, known, -1)
+					case known >= 0:
+						return walk(neSucc, 0, known, -1)
+					case not == k:
+						return walk(neSucc, 0, -1, not)
+					}
+					if walk(eqSucc, 0, k, -1) {
+						return true
+					}
+					return walk(neSucc, 0, -1, k)
+				}
+				for _, s := range b.Succs {
+					if walk(s, 0, known, not) {
+						return true
+					}
+				}
+				return false
+			}
+			// on the comma edge the token is the comma until next() is called; after expect(COMMA) it is unknown
+			known := comma
+			if sp.from > 0 {
+				known = -1
+			}
+			bad := walk(sp.b, sp.from, known, -1)
+			r.check(!bad, key, c.Pos(instrPos(sp.at)), "after a consumed comma an element or an error follows before the closing parenthesis is accepted",
+				fmt.Sprintf("%s: after a comma has been consumed the parser can reach expect(RIGHT_PARENTHESIS) at %s without parsing another element and without reporting an error: a trailing comma is accepted - `f(a,)` / `function f(a,){}` parse, ES5 11.2 and 13 have no such production", ssaFuncName(fn), witness))
+		}
+	}
+	r.note("comma_edges", n)
+}
